@@ -306,7 +306,17 @@ def np_points(pts, n, rank, dtype=None):
         a = a.reshape(len(pts), n)
     elif rank == 3:
         a = a.reshape(len(pts), len(pts[0]) if pts else 0, n)
-    return a.astype(dtype or points_dtype(pts))
+    a = a.astype(dtype or points_dtype(pts))
+    # the memory layout is the caller's business too: C order, Fortran order, or a transposed view - chosen from the data so
+    # that a replay builds the same array; the values (and so the required answers) are the same
+    if a.ndim >= 2 and a.size:
+        k = (int(np.abs(a.astype(np.int64)).sum()) + a.size) % 3
+        if k == 1:
+            a = np.asfortranarray(a)
+        elif k == 2:
+            axes = tuple(reversed(range(a.ndim)))
+            a = np.ascontiguousarray(a.transpose(axes)).transpose(axes)
+    return a
 
 def _flat(x):
     return [v for y in x for v in _flat(y)] if isinstance(x, (list, tuple)) else [x]
